@@ -169,8 +169,29 @@ class Session:
             # simulation - otherwise the collector finalises it in the middle of a later
             # execution, where its ``finally`` blocks would talk to the wrong loop.
             if prev is None:
+                _release_waiters_of_singletons()
                 gc.collect()
         return ('ok', None)
+
+
+def _release_waiters_of_singletons():
+    """`usim.eternity` is one object for the whole process: whoever is still subscribed to it
+    when a simulation is over (the observer of `flag | eternity`, an abandoned waiter) stays in
+    its list for good - thousands of executions later every forced collection crawls through
+    their frames. The simulation is over: close them, as the collector would if it could."""
+    try:
+        import usim
+        waiting = getattr(usim.eternity, '_waiting', None)
+        if not waiting:
+            return
+        for waiter, _ in list(waiting):
+            try:
+                waiter.close()
+            except BaseException:  # noqa: B902 - tearing down outside of any simulation (R3)
+                pass
+        del waiting[:]
+    except Exception:  # noqa: B902
+        pass
 
 
 def current_session():
